@@ -73,6 +73,12 @@ pub struct Inner {
     pub id_requests: Vec<(u64, String)>,
     pub reads: u64,
     next_id: u64,
+    /// Fault injection: the mutating call with this index (0-based, counted over all mutating calls)
+    /// and every later one fail with an IO error and change nothing.
+    pub fail_from: Option<usize>,
+    mutating_calls: usize,
+    /// The calls that were refused: (ticket, op).
+    pub refused: Vec<(u64, Op)>,
 }
 
 #[derive(Clone, Default)]
@@ -89,11 +95,18 @@ impl RecStore {
         (g.state.clone(), g.log.clone(), g.id_requests.clone())
     }
 
-    fn record(&self, op: Op) {
+    fn record(&self, op: Op) -> Result<(), StoreError> {
         let mut g = self.0.lock();
         let t = ticket();
+        let idx = g.mutating_calls;
+        g.mutating_calls += 1;
+        if g.fail_from.map_or(false, |f| idx >= f) {
+            g.refused.push((t, op));
+            return Err(StoreError::Io(std::io::Error::new(std::io::ErrorKind::Other, "injected store failure")));
+        }
         g.state.apply(&op);
         g.log.push((t, op));
+        Ok(())
     }
 }
 
@@ -141,28 +154,23 @@ impl NodePersistence for RecStore {
     }
 
     fn put_value(&mut self, id: Self::LaneId, value: &[u8]) -> Result<(), StoreError> {
-        self.record(Op::PutValue { id, value: value.to_vec() });
-        Ok(())
+        self.record(Op::PutValue { id, value: value.to_vec() })
     }
 
     fn delete_value(&mut self, id: Self::LaneId) -> Result<(), StoreError> {
-        self.record(Op::DeleteValue { id });
-        Ok(())
+        self.record(Op::DeleteValue { id })
     }
 
     fn update_map(&mut self, id: Self::LaneId, key: &[u8], value: &[u8]) -> Result<(), StoreError> {
-        self.record(Op::UpdateMap { id, key: key.to_vec(), value: value.to_vec() });
-        Ok(())
+        self.record(Op::UpdateMap { id, key: key.to_vec(), value: value.to_vec() })
     }
 
     fn remove_map(&mut self, id: Self::LaneId, key: &[u8]) -> Result<(), StoreError> {
-        self.record(Op::RemoveMap { id, key: key.to_vec() });
-        Ok(())
+        self.record(Op::RemoveMap { id, key: key.to_vec() })
     }
 
     fn clear_map(&mut self, id: Self::LaneId) -> Result<(), StoreError> {
-        self.record(Op::ClearMap { id });
-        Ok(())
+        self.record(Op::ClearMap { id })
     }
 
     fn read_map(&self, id: Self::LaneId) -> Result<Self::MapCon<'_>, StoreError> {
